@@ -185,7 +185,7 @@ class ProcTable:
     def _reparent(self, pid):
         # the kernel re-parents the children of an exiting process to init
         if self.reparent:
-            for q in self.procs.values():
+            for q in list(self.procs.values()):
                 if q.ppid == pid and q.pid != pid:
                     q.ppid = 1
 
@@ -202,7 +202,7 @@ class ProcTable:
         p = self.procs.get(ident)
         if p is not None:
             return p, None
-        for q in self.procs.values():
+        for q in list(self.procs.values()):
             if q.threads:
                 for t in q.threads:
                     if t.tid == ident:
@@ -232,9 +232,9 @@ class ProcTable:
             if self.listing_hook is not None:
                 def names():
                     self.listing_hook(self)
-                    return [str(p) for p in self.procs] + self._rootnames()
+                    return [str(p) for p in list(self.procs)] + self._rootnames()
                 return D(names)
-            return D([str(p) for p in self.procs] + self._rootnames())
+            return D([str(p) for p in list(self.procs)] + self._rootnames())
         head = parts[0]
         if not head.isdigit():
             rel = "/".join(parts)
